@@ -175,7 +175,7 @@ class AlternateDataStream(_STIXBase20):
     _properties = OrderedDict([
         ('name', StringProperty(required=True)),
         ('hashes', HashesProperty(HASHING_ALGORITHM, spec_version="2.0")),
-        ('size', IntegerProperty()),
+        ('size', IntegerProperty(min=0)),
     ])
 
 
@@ -272,7 +272,7 @@ class WindowsPESection(_STIXBase20):
 
     _properties = OrderedDict([
         ('name', StringProperty(required=True)),
-        ('size', IntegerProperty()),
+        ('size', IntegerProperty(min=0)),
         ('entropy', FloatProperty()),
         ('hashes', HashesProperty(HASHING_ALGORITHM, spec_version="2.0")),
     ])
@@ -494,8 +494,8 @@ class NetworkTraffic(_Observable):
         ('is_active', BooleanProperty()),
         ('src_ref', ObjectReferenceProperty(valid_types=['ipv4-addr', 'ipv6-addr', 'mac-addr', 'domain-name'])),
         ('dst_ref', ObjectReferenceProperty(valid_types=['ipv4-addr', 'ipv6-addr', 'mac-addr', 'domain-name'])),
-        ('src_port', IntegerProperty()),
-        ('dst_port', IntegerProperty()),
+        ('src_port', IntegerProperty(min=0, max=65535)),
+        ('dst_port', IntegerProperty(min=0, max=65535)),
         ('protocols', ListProperty(StringProperty, required=True)),
         ('src_byte_count', IntegerProperty()),
         ('dst_byte_count', IntegerProperty()),
